@@ -173,6 +173,7 @@ class OptimizationProblem(EvaluationProblem):
         "is_linear",
         "ineq_tolerance",
         "eq_tolerance",
+        "use_standardized_objective",
     ]
     _SLACK_VARIABLE: Final[str] = "slack_variable_{}"
 
